@@ -114,25 +114,50 @@ std::string jesc(const std::string& s)
             pmc_rt_end();
             _exit(0);
         }
+        // The limit is on the CPU time the execution consumed (all its threads), so that a machine that is
+        // busy with other work cannot turn a normal execution into a "timeout"; an execution that is blocked
+        // outside the scheduler's control uses no CPU and is caught by a wall limit 15 times as long.
         double limit = g_exec_timeout * (rec->limit_mult > 1 ? rec->limit_mult : 1);
         int timed_out = 0;
         int st = 0;
-        double tend = now_s() + limit;
+        double wall_limit = limit * 15 < 300 ? limit * 15 : (limit * 2 > 300 ? limit * 2 : 300);
+        double tend = now_s() + wall_limit;
+        long const hz = sysconf(_SC_CLK_TCK);
+        char statp[64];
+        snprintf(statp, sizeof statp, "/proc/%d/stat", (int) c);
         for (;;)
         {
             pid_t w = waitpid(c, &st, WNOHANG);
             if (w == c) break;
             double left = tend - now_s();
-            if (left <= 0)
+            double cpu = 0;
+            {
+                char b[1024];
+                int fd = open(statp, O_RDONLY);
+                if (fd >= 0)
+                {
+                    ssize_t k = read(fd, b, sizeof b - 1);
+                    close(fd);
+                    if (k > 0)
+                    {
+                        b[k] = 0;
+                        char* q = strrchr(b, ')');    // fields after the command name: state ppid ... utime(14) stime(15)
+                        unsigned long ut = 0, stt = 0;
+                        if (q && sscanf(q + 2, "%*c %*d %*d %*d %*d %*d %*u %*u %*u %*u %*u %lu %lu", &ut, &stt) == 2) cpu = (double) (ut + stt) / (double) hz;
+                    }
+                }
+            }
+            if (left <= 0 || cpu > limit)
             {
                 timed_out = 1;
                 kill(c, SIGKILL);
                 waitpid(c, &st, 0);
                 break;
             }
+            double nap = left < 0.25 ? left : 0.25;
             struct timespec ts;
-            ts.tv_sec = (time_t) left;
-            ts.tv_nsec = (long) ((left - (double) ts.tv_sec) * 1e9);
+            ts.tv_sec = (time_t) nap;
+            ts.tv_nsec = (long) ((nap - (double) ts.tv_sec) * 1e9);
             sigtimedwait(&chld, nullptr, &ts);
         }
         if (!rec->done)
@@ -141,7 +166,7 @@ std::string jesc(const std::string& s)
             {
                 rec->outcome = OUT_TIMEOUT;
                 snprintf(rec->fail_id, sizeof rec->fail_id, "timeout");
-                snprintf(rec->msg, sizeof rec->msg, "execution exceeded %.0f s wall", limit);
+                snprintf(rec->msg, sizeof rec->msg, "execution exceeded %.0f s of CPU time (or its wall limit)", limit);
             }
             else
             {
